@@ -747,7 +747,7 @@ package otr3
 //@ func (*Conversation).processEncryptedSig
 //@   requires c != nil && c.ake != nil && keys != nil && c.version != nil && c.ake.theirPublicValue != nil && c.ake.ourPublicValue != nil
 //@   modifies anything
-//@   preserves [C01.encsig.frame] c.Policies, c.ake.theirPublicValue, c.ake.ourPublicValue, val(c.ake.theirPublicValue), c.msgState, c.ake, c.version, c.sentRevealSig, c.keys.ourKeyID, c.keys.theirKeyID, c.ourCurrentKey, c.theirInstanceTag, c.ourInstanceTag
+//@   preserves [C01.encsig.frame] c.ake.sigKey.c, c.ake.revealKey.c, c.ake.secretExponent, c.Policies, c.ake.theirPublicValue, c.ake.ourPublicValue, val(c.ake.theirPublicValue), c.msgState, c.ake, c.version, c.sentRevealSig, c.keys.ourKeyID, c.keys.theirKeyID, c.ourCurrentKey, c.theirInstanceTag, c.ourInstanceTag
 //@   ensures [C01.gate.encsig] result == nil ==> (akemacok(nil) && sigok(nil))
 //@   ensures [C01.theirkey.onlyverified,C06.theirkey.reject] result != nil ==> (c.theirKey == old(c.theirKey) && c.ake.keys.theirKeyID == old(c.ake.keys.theirKeyID))
 //@   ensures [C01.theirkey.set] result == nil ==> c.theirKey != nil
@@ -756,9 +756,10 @@ package otr3
 //@ func (*Conversation).processRevealSig
 //@   requires c != nil && c.ake != nil && c.version != nil && c.ake.ourPublicValue != nil && c.ake.secretExponent !== nil
 //@   modifies anything
-//@   preserves [C01.revealsig.frame] c.ake.ourPublicValue, c.Policies, c.msgState, c.ake, c.version, c.sentRevealSig, c.keys.ourKeyID, c.keys.theirKeyID, c.ourCurrentKey, c.theirInstanceTag, c.ourInstanceTag
+//@   preserves [C01.revealsig.frame] c.ake.secretExponent, c.ake.ourPublicValue, c.Policies, c.msgState, c.ake, c.version, c.sentRevealSig, c.keys.ourKeyID, c.keys.theirKeyID, c.ourCurrentKey, c.theirInstanceTag, c.ourInstanceTag
 //@   ensures [C01.gate.revealsig] err == nil ==> (commitok(nil) && akemacok(nil) && sigok(nil) && c.ake.theirPublicValue != nil && inGroup(c.ake.theirPublicValue))
 //@   ensures [C01.theirkey.onlyverified.revealsig,C06.theirkey.reject.revealsig] err != nil ==> c.theirKey == old(c.theirKey)
+//@   ensures [C10.revealsig.keys] err == nil ==> (len(c.ake.sigKey.c) == 16 && len(c.ake.revealKey.c) == 16)
 //@   ensures [C06.revealsig.reject.commit] (err != nil && !old(commitok(nil)) && !commitok(nil)) ==> (c.ake.encryptedGx === old(c.ake.encryptedGx) && bytes(c.ake.encryptedGx) == old(bytes(c.ake.encryptedGx)) && c.ake.theirPublicValue == old(c.ake.theirPublicValue))
 //@   modifies commitok(nil), akemacok(nil), sigok(nil)
 
@@ -817,6 +818,8 @@ package otr3
 // auth_state_machine.go: the AKE transition table (C07, C01, C06)
 // ---------------------------------------------------------------------------
 //@ define akeOK(c) = c != nil && c.ake != nil && c.version != nil && c.ourCurrentKey != nil && keysNonNil(c)
+//@ define stInv(c, s) = s != nil && ((isAwDHKey(s) || isAwRevealSig(s)) ==> (c.ake.ourPublicValue != nil && c.ake.secretExponent !== nil)) && (isAwSig(s) ==> (c.ake.ourPublicValue != nil && c.ake.theirPublicValue != nil && c.ourCurrentKey != nil && nonglobal(unbox(s, authStateAwaitingSig).revealSigMsg)))
+//@ define akeInv(c) = c.ake != nil ==> stInv(c, c.ake.state)
 //@ define isNone(s) = typeis(s, authStateNone)
 //@ define isAwDHKey(s) = typeis(s, authStateAwaitingDHKey)
 //@ define isAwRevealSig(s) = typeis(s, authStateAwaitingRevealSig)
@@ -836,6 +839,7 @@ package otr3
 //@   pure
 //@   ensures [C01.ignore.awdhkey.revealsig,C07.cell.awdhkey.revealsig] isAwDHKey(result0) && result1 === nil && result2 == nil
 //@ func (authStateAwaitingSig).receiveRevealSigMessage
+//@   requires nonglobal(s.revealSigMsg)
 //@   pure
 //@   ensures [C01.ignore.awsig.revealsig,C07.cell.awsig.revealsig] isAwSig(result0) && unbox(result0, authStateAwaitingSig).revealSigMsg === s.revealSigMsg && result1 === nil && result2 == nil
 //@ func (authStateNone).receiveSigMessage
@@ -853,6 +857,7 @@ package otr3
 //@   modifies anything
 //@   preserves [C07.dhkeymsg.frame] c.msgState, c.theirKey, c.version, c.ourCurrentKey, c.sentRevealSig, c.keys.ourKeyID, c.keys.theirKeyID, c.Policies, c.ourInstanceTag, c.theirInstanceTag
 //@   ensures result1 == nil ==> (c.ake != nil && fresh(c.ake) && c.ake.ourPublicValue != nil && c.ake.secretExponent !== nil && nonglobal(result0))
+//@   ensures [C07.dhkeymsg.ake] c.ake != nil && fresh(c.ake) && isNone(c.ake.state)
 //@ func (*Conversation).processDHCommit
 //@   requires c != nil && c.ake != nil
 //@   modifies c.ake.encryptedGx, c.ake.xhashedGx
@@ -865,44 +870,49 @@ package otr3
 
 //@ func (authStateNone).receiveDHCommitMessage
 //@   modifies akeWiped(c.ake), akeKeysWiped(c.ake), kmcWiped(addr(c.ake.keys)), keysWiped(addr(c.ake.keys))
-//@   requires akeOK(c)
+//@   requires akeOKnokey(c)
 //@   modifies anything
 //@   preserves [C07.cell.none.commit.frame,C01.none.commit.frame] c.msgState, c.theirKey, c.version, c.ourCurrentKey, c.sentRevealSig, c.keys.ourKeyID, c.keys.theirKeyID, c.Policies
 //@   ensures [C07.cell.none.commit] result2 == nil ==> (isAwRevealSig(result0) && len(result1) >= 3)
 //@   ensures [C07.cell.none.commit.err] result2 != nil ==> (isNone(result0) && result1 === nil)
+//@   ensures [C07.inv.authStateNone.receiveDHCommitMessage] c.ake != nil && stInv(c, result0)
 
 //@ func (authStateAwaitingRevealSig).receiveDHCommitMessage
 //@   modifies akeWiped(c.ake), akeKeysWiped(c.ake), kmcWiped(addr(c.ake.keys)), keysWiped(addr(c.ake.keys))
-//@   requires akeOK(c) && c.ake.ourPublicValue != nil
+//@   requires akeOKnokey(c) && c.ake.ourPublicValue != nil && c.ake.secretExponent !== nil
 //@   modifies anything
 //@   preserves [C07.cell.awrevealsig.commit.frame,C01.awrevealsig.commit.frame] c.msgState, c.theirKey, c.version, c.ourCurrentKey, c.sentRevealSig, c.keys.ourKeyID, c.keys.theirKeyID, c.Policies, c.ake, c.ake.ourPublicValue, c.ake.secretExponent
 //@   ensures [C07.cell.awrevealsig.commit] result2 == nil ==> (isAwRevealSig(result0) && len(result1) >= 3)
 //@   ensures [C07.cell.awrevealsig.commit.err] result2 != nil ==> (isAwRevealSig(result0) && result1 === nil)
+//@   ensures [C07.inv.authStateAwaitingRevealSig.receiveDHCommitMessage] c.ake != nil && stInv(c, result0)
 
 //@ func (authStateAwaitingDHKey).receiveDHCommitMessage
 //@   modifies akeWiped(c.ake), akeKeysWiped(c.ake), kmcWiped(addr(c.ake.keys)), keysWiped(addr(c.ake.keys))
-//@   requires akeOK(c) && c.ake.ourPublicValue != nil
+//@   requires akeOKnokey(c) && c.ake.ourPublicValue != nil && c.ake.secretExponent !== nil
 //@   modifies anything
 //@   preserves [C07.cell.awdhkey.commit.frame,C01.awdhkey.commit.frame] c.msgState, c.theirKey, c.version, c.ourCurrentKey, c.sentRevealSig, c.keys.ourKeyID, c.keys.theirKeyID, c.Policies
 //@   ensures [C07.collision.high] (result2 == nil && c.ake == old(c.ake)) ==> isAwDHKey(result0)
 //@   ensures [C07.collision.states] result2 == nil ==> (isAwRevealSig(result0) || isAwDHKey(result0))
 //@   ensures [C07.collision.err] result2 != nil ==> result1 === nil
+//@   ensures [C07.inv.authStateAwaitingDHKey.receiveDHCommitMessage] c.ake != nil && stInv(c, result0)
 
 //@ func (authStateAwaitingDHKey).receiveDHKeyMessage
-//@   requires akeOK(c) && c.ake.ourPublicValue != nil && c.ake.secretExponent !== nil
+//@   requires akeOKnokey(c) && c.ake.ourPublicValue != nil && c.ake.secretExponent !== nil
 //@   modifies anything
 //@   preserves [C07.cell.awdhkey.dhkey.frame,C01.awdhkey.dhkey.frame] c.msgState, c.theirKey, c.version, c.ourCurrentKey, c.keys.ourKeyID, c.keys.theirKeyID, c.Policies, c.ake
-//@   ensures [C07.cell.awdhkey.dhkey] result2 == nil ==> (isAwSig(result0) && len(result1) >= 3 && unbox(result0, authStateAwaitingSig).revealSigMsg === result1 && c.sentRevealSig)
+//@   ensures [C07.cell.awdhkey.dhkey] result2 == nil ==> (isAwSig(result0) && len(result1) >= 3 && unbox(result0, authStateAwaitingSig).revealSigMsg === result1 && nonglobal(result1) && c.sentRevealSig)
 //@   ensures [C07.cell.awdhkey.dhkey.err,C06.ake.reject.awdhkey.dhkey] result2 != nil ==> (isAwDHKey(result0) && result1 === nil && c.sentRevealSig == old(c.sentRevealSig))
+//@   ensures [C07.inv.authStateAwaitingDHKey.receiveDHKeyMessage] c.ake != nil && stInv(c, result0)
 
 //@ func (authStateAwaitingSig).receiveDHKeyMessage
-//@   requires akeOK(c)
+//@   requires akeOKnokey(c) && c.ake.ourPublicValue != nil && c.ake.theirPublicValue != nil && c.ourCurrentKey != nil && nonglobal(s.revealSigMsg)
 //@   modifies c.ake.theirPublicValue
 //@   ensures [C07.retransmit] isAwSig(result0) && unbox(result0, authStateAwaitingSig).revealSigMsg === s.revealSigMsg && (result1 === nil || result1 === s.revealSigMsg)
 //@   ensures [C07.retransmit.err] result2 != nil ==> result1 === nil
+//@   ensures [C07.inv.authStateAwaitingSig.receiveDHKeyMessage] c.ake != nil && stInv(c, result0)
 
 //@ func (authStateAwaitingRevealSig).receiveRevealSigMessage
-//@   requires akeOK(c) && c.ake.ourPublicValue != nil && c.ake.secretExponent !== nil
+//@   requires akeOKnokey(c) && c.ake.ourPublicValue != nil && c.ake.secretExponent !== nil
 //@   modifies anything
 //@   modifies commitok(nil), akemacok(nil), sigok(nil), seclog(c), msglog(c), kmcWiped(addr(c.keys)), keysWiped(addr(c.keys)), akeWiped(c.ake), akeKeysWiped(c.ake), kmcWiped(addr(c.ake.keys)), keysWiped(addr(c.ake.keys))
 //@   preserves [C01.awrevealsig.revealsig.frame] c.version, c.ourCurrentKey, c.Policies, c.ake
@@ -910,23 +920,54 @@ package otr3
 //@   ensures [C01.finish.revealsig.ok] (result2 == nil) ==> (c.msgState == encrypted && isNone(result0) && len(result1) >= 3 && !c.sentRevealSig && commitok(nil) && akemacok(nil) && sigok(nil))
 //@   ensures [C01.highlight.reject,C06.highlight.reject] (result2 != nil && !isNone(result0)) ==> c.sentRevealSig == old(c.sentRevealSig)
 //@   ensures [C06.ake.reject.awrevealsig.revealsig] (result2 != nil && c.msgState == old(c.msgState) && !isNone(result0)) ==> (isAwRevealSig(result0) && result1 === nil)
+//@   ensures [C01.theirkey.gate.revealsig,C06.theirkey.gate.revealsig] c.theirKey != old(c.theirKey) ==> (akemacok(nil) && sigok(nil))
+//@   ensures [C07.inv.authStateAwaitingRevealSig.receiveRevealSigMessage] c.ake != nil && stInv(c, result0)
 
 //@ func (authStateAwaitingSig).receiveSigMessage
-//@   requires akeOK(c) && c.ake.ourPublicValue != nil && c.ake.theirPublicValue != nil
+//@   requires akeOKnokey(c) && c.ourCurrentKey != nil && c.ake.ourPublicValue != nil && c.ake.theirPublicValue != nil && nonglobal(s.revealSigMsg)
 //@   modifies anything
 //@   modifies akemacok(nil), sigok(nil), seclog(c), msglog(c), kmcWiped(addr(c.keys)), keysWiped(addr(c.keys)), akeWiped(c.ake), akeKeysWiped(c.ake), kmcWiped(addr(c.ake.keys)), keysWiped(addr(c.ake.keys))
 //@   preserves [C01.awsig.sig.frame] c.version, c.ourCurrentKey, c.Policies, c.ake, c.sentRevealSig
 //@   ensures [C01.finish.gate.sig,C07.finish.sig] c.msgState != old(c.msgState) ==> (akemacok(nil) && sigok(nil) && c.msgState == encrypted && isNone(result0))
 //@   ensures [C01.finish.sig.ok] result2 == nil ==> (c.msgState == encrypted && isNone(result0) && result1 === nil && akemacok(nil) && sigok(nil))
 //@   ensures [C06.ake.reject.awsig.sig] (result2 != nil && c.msgState == old(c.msgState) && !isNone(result0)) ==> (isAwSig(result0) && unbox(result0, authStateAwaitingSig).revealSigMsg === s.revealSigMsg && result1 === nil && c.theirKey == old(c.theirKey))
+//@   ensures [C01.theirkey.gate.sig,C06.theirkey.gate.sig] c.theirKey != old(c.theirKey) ==> (akemacok(nil) && sigok(nil))
+//@   ensures [C07.inv.authStateAwaitingSig.receiveSigMessage] c.ake != nil && stInv(c, result0)
 
 //@ func (authStateBase).receiveDHCommitMessage
-//@   requires akeOK(c)
+//@   requires akeOKnokey(c)
 //@   modifies anything
 //@   modifies akeWiped(c.ake), akeKeysWiped(c.ake), kmcWiped(addr(c.ake.keys)), keysWiped(addr(c.ake.keys))
 //@   preserves [C07.cell.base.commit.frame] c.msgState, c.theirKey, c.version, c.ourCurrentKey, c.sentRevealSig, c.keys.ourKeyID, c.keys.theirKeyID, c.Policies
 //@   ensures [C07.cell.awsig.commit] result2 == nil ==> (isAwRevealSig(result0) && len(result1) >= 3)
 //@   ensures [C07.cell.awsig.commit.err] result2 != nil ==> (isNone(result0) && result1 === nil)
+//@   ensures [C07.inv.authStateBase.receiveDHCommitMessage] c.ake != nil && stInv(c, result0)
+
+//@ define allNonglobal(ms) = forall i in 0..len(ms) :: nonglobal(ms[i])
+//@ func compactMessagesWithHeader
+//@   ensures [C20.compact.fresh] result === nil || fresh(result)
+//@   ensures [C19.compact.len] len(result) <= len(msgs)
+//@   ensures [C20.compact.elems] allNonglobal(msgs) ==> allNonglobal(result)
+//@ loop compactMessagesWithHeader #0
+//@   invariant (res === nil || fresh(res)) && len(res) <= rangeindex + 1 && (allNonglobal(msgs) ==> allNonglobal(res))
+
+// processAKE: the dispatcher over the 16 cells.  The representation invariant akeInv ties the fields the
+// next cell dereferences to the stored state; every cell re-establishes it (C07.inv.*).
+//@ func (*Conversation).maybeRetransmit
+//@   requires c != nil
+//@   modifies anything
+//@   modifies msglog(c)
+//@   preserves [C18.retransmit.frame] c.ake, c.ake.state, c.ake.ourPublicValue, c.ake.theirPublicValue, c.ake.secretExponent, c.ourCurrentKey, c.version, c.Policies, c.msgState, c.theirKey, c.fragmentationContext.currentIndex, c.fragmentationContext.currentLen, c.fragmentationContext.frag
+//@   ensures nonglobal(result0)
+//@   opaque
+//@ func (*Conversation).processAKE
+//@   requires c != nil && c.version != nil && keysNonNil(c) && akeInv(c)
+//@   modifies anything
+//@   modifies commitok(nil), akemacok(nil), sigok(nil), seclog(c), msglog(c), kmcWiped(addr(c.keys)), keysWiped(addr(c.keys)), akeWiped(c.ake), akeKeysWiped(c.ake), kmcWiped(addr(c.ake.keys)), keysWiped(addr(c.ake.keys))
+//@   preserves [C07.ake.frame,C14.ctx.frame.ake] c.version, c.Policies, c.ourCurrentKey, c.fragmentationContext.currentIndex, c.fragmentationContext.currentLen, c.fragmentationContext.frag
+//@   ensures [C07.ake.inv] c.ake != nil && akeInv(c)
+//@   ensures [C01.ake.gate,C18.ake.gate] c.msgState != old(c.msgState) ==> (c.msgState == encrypted && akemacok(nil) && sigok(nil))
+//@   ensures [C01.ake.theirkey,C06.ake.theirkey] c.theirKey != old(c.theirKey) ==> (akemacok(nil) && sigok(nil))
 
 //@ func encrypt
 //@   requires len(key) == 16
